@@ -93,7 +93,11 @@ PROPS = {
                  {"module": "MC_Bdd.tla", "cfg": "MC_Bdd_K3_t.cfg", "tier": "thorough", "workers": 16}],
              rule="lists of 0..4 functions with shared structure (adders, muxes, symmetric, cofactors, complements), n = 0..11; "
              "every single function of n <= 3"),
-    "C08": P(["rel", "iter_start", "iter_next", "vnext"], mc=KMC(["order"]), machine_ops=["rel", "vnext"],
+    "C08": P(["rel", "iter_start", "iter_next", "vnext"], machine_ops=["rel", "vnext"],
+             mc=KMC(["order"]) + [{"module": "MC_Iter.tla", "cfg": "MC_Iter_K2_q.cfg", "only": "quick"},
+                                  {"module": "MC_Iter.tla", "cfg": "MC_Iter_K3_q.cfg", "only": "quick"},
+                                  {"module": "MC_Iter.tla", "cfg": "MC_Iter_K2_t.cfg", "tier": "thorough", "workers": 4},
+                                  {"module": "MC_Iter.tla", "cfg": "MC_Iter_K3_t.cfg", "tier": "thorough", "workers": 4}],
              rule="ordering observations on structured pairs/triples (one-bit differences in low/high words), cross-size pairs, "
              "complete iterator runs, hooked successor from tables with all-ones low words"),
     "C09": P(["text", "from_hex"], mc=KMC(["text"]), machine_ops=["text"], rule="all formatting entry points on structured tables; parsing of printed strings, their "
